@@ -1,4 +1,5 @@
 import Mamba.Basic
+import Mamba.Gen.SortConsts
 /-!
 # Model of `sortints/sorted_ints.go` (property C17)
 
@@ -115,9 +116,10 @@ def reverseLoop : Nat → List Int → Int → Int → Outcome (List Int)
       | _, _ => .panic
     else .ok tmp
 
-/-- `Range(start, end, step)`; the `make` capacities are evaluated because a negative capacity panics. -/
+/-- `Range(start, end, step)`; the rejection test is the condition of the source as regenerated into
+`Gen.Sort.rangeRejects`; the `make` capacities are evaluated because a negative capacity panics. -/
 def range (start e step : Int) : Outcome (List Int) :=
-  if (e < start ∧ step > 0) ∨ (e > start ∧ step < 0) ∨ (e ≠ start ∧ step = 0) then .panic
+  if Gen.Sort.rangeRejects start e step then .panic
   else if e = start then .ok []
   else if e < start then
     if Int.tdiv (start - e - step - 1) (-step) < 0 then .panic
